@@ -205,8 +205,8 @@ PROPS = {
         "assumptions": ["for ephemeral events and for equal-created_at versions the OK verdict is not constrained by the monitor", "SQLite inserts are asynchronous: only reply shapes are judged here (content: C06)"],
     },
     "C15": {
-        "lean_modules": ["MocProps.C15"], "theorem_files": ["MocProps/C15.lean"],
-        "gen_groups": ["Cache", "Matcher"], "race": True,
+        "lean_modules": ["MocProps.C15", "MocProps.C15Locks"], "theorem_files": ["MocProps/C15.lean", "MocProps/C15Locks.lean"],
+        "gen_groups": ["Cache", "Matcher", "Locks"], "race": True,
         "n_quick": 6000, "n_thorough": 60000, "thorough_seeds": 3,
         "rule": "2-4 goroutines x 1-3 calls (Add of related events: new versions at -1/0/+1 s, deletion requests of pre-loaded events, duplicates; match-everything and aimed "
                 "Find; Len) on ONE EventCache of capacity 1-4 pre-loaded with 0-3 events, 25% through concurrent CacheHandler sessions; every call stamped with a global logical clock at "
@@ -214,8 +214,11 @@ PROPS = {
                 "distinct = distinct output line; the evidence reports how many histories had overlapping calls",
         "level_text": "Partial by nature: the theorems are (1) witness_sound — a linearization accepted by the checker is a sequential execution of the model, consistent with real time, "
                       "that reproduces every recorded result, so the check of each recorded history is verified; (2) listing_within_capacity + C04.retention_all_histories — every state "
-                      "the sequential model can reach (hence every linearizable history) shows at most capacity events, one per address, all retained. That the Go code only produces "
-                      "linearizable, race-free histories (lock discipline, -race) is runtime-validated: every generated concurrent history is searched for a linearization against the proved "
+                      "the sequential model can reach (hence every linearizable history) shows at most capacity events, one per address, all retained; (3) C15Locks — over a table REGENERATED "
+                      "from event_cache.go on every run (method, lock taken first-thing with deferred unlock, writes shared state, touches shared state, exported, callees): every public "
+                      "operation is one critical section of the RWMutex, every state-writing method is reached only under the write lock (only Add), read-lock holders reach no writer, no "
+                      "re-entrant acquisition, and no other file names the private fields/methods (cache_lock_discipline, cache_writers_under_write_lock, cache_entries, cache_state_private). "
+                      "That the Go runtime's RWMutex then yields only linearizable, race-free histories is runtime-validated: every generated concurrent history is searched for a linearization against the proved "
                       "model and the race detector watches the run.",
         "level_note": "Trusted: Lean kernel + standard axioms; harness/driver; the Go race detector; sync.RWMutex. Real thread interleavings are sampled, not enumerated.",
         "assumptions": ["logical-clock stamps bracket the cache call (the handler path adds a barrier COUNT that touches no cache state)"],
